@@ -2030,11 +2030,13 @@ class GA(G):
                 a1 = self.pick(aliases2)[1]
                 a2 = self.pick(aliases2)[1]
                 oc = self.i(0, 9)
+                if oc == 3 and len(objs) < 2:
+                    oc = 0
                 if hazard_growth and kind2 == "list" and 4 <= oc < 6:
                     oc = 0  # map keys are not rewritten after a list moves (known finding)
                 if oc < 3:
                     body.append(("print", ("bin", "==", a1, a2)))
-                elif oc < 4 and len(objs) > 1:
+                elif oc < 4:
                     other = objs[0] if objs[1][0] == name2 else objs[1]
                     body.append(("print", ("bin", "==", a1, self.pick(other[2])[1])))
                 elif oc < 6:
